@@ -188,6 +188,10 @@ func OpenNode(w *mat.World, db chain.DB, snapshots bool) (*RNode, error) {
 	}
 	n.Store = &recStore{DBStore: st}
 	n.DB.onFlush = n.Store.noteFlush
+	if snapshots && len(n.DB.Snaps) == 0 {
+		// reopened database: the committed image is what we were given
+		n.DB.Snaps = append(n.DB.Snaps, CopyDB(db))
+	}
 	n.CM = chain.NewManager(n.Store, cs)
 	n.CM.OnReorg(func(types.ChainIndex) { n.nmu.Lock(); n.Notifs++; n.nmu.Unlock() })
 	return n, nil
@@ -265,6 +269,10 @@ type Projection struct {
 	Notif    int      `json:"notif"`
 	Led      LedProj  `json:"led"`
 	StateOK  bool     `json:"stateOk"` // reported tip state is byte-equal to the linear ledger's
+	// OrderDiverged: a block on the best chain was applied with a supplement listing the expiring
+	// contracts in another ORDER than a linear node does (known finding C02-expiry-order); its
+	// missed-proof outputs then get other leaf indices and every later state differs in Elements.
+	OrderDiverged bool `json:"orderDiverged"`
 	Detail   string   `json:"detail,omitempty"`
 }
 
@@ -301,6 +309,9 @@ func (n *RNode) Project(t *mat.Tree, nm *mat.Names, maxH int) Projection {
 			p.Sta = append(p.Sta, "none")
 		case nd.L != nil && bytes.Equal(mat.StateBytes(cs), mat.StateBytes(nd.L.CS)):
 			p.Sta = append(p.Sta, "full")
+		case nd.L != nil && hdrEqual(cs, nd.Hdr) && cs.Elements.NumLeaves == nd.L.CS.Elements.NumLeaves && cs.Elements.NumLeaves != t.Node(max(nd.Parent, 1)).State().Elements.NumLeaves && n.orderDiverged(t, nd.ID):
+			p.Sta = append(p.Sta, "full")
+			p.OrderDiverged = true
 		case nd.HasState && hdrEqual(cs, nd.Hdr):
 			p.Sta = append(p.Sta, "partial")
 		default:
@@ -331,8 +342,49 @@ func (n *RNode) Project(t *mat.Tree, nm *mat.Names, maxH int) Projection {
 	if nd := t.Node(max(p.Mem, 1)); p.Mem != 0 && nd.L != nil {
 		p.StateOK = bytes.Equal(mat.StateBytes(n.CM.TipState()), mat.StateBytes(nd.L.CS)) && n.CM.TipState().Index == nd.L.CS.Index
 	}
+	if p.Mem != 0 && !p.StateOK && t.Node(p.Mem).L != nil && n.orderDiverged(t, p.Mem) {
+		p.OrderDiverged = true
+	}
 	p.Led = n.projectLed(nm, maxH)
 	return p
+}
+
+// orderDiverged reports whether some block on the chain genesis..id is stored with a supplement
+// whose expiring contracts are the linear ledger's as a set but in a different order.
+func (n *RNode) orderDiverged(t *mat.Tree, id int) bool {
+	for _, k := range t.PathTo(id) {
+		nd := t.Node(k)
+		if nd.L == nil {
+			return false
+		}
+		_, bs, ok := n.Store.Block(nd.Block.ID())
+		if !ok || bs == nil {
+			continue
+		}
+		want := nd.L.Supps[len(nd.L.Supps)-1].ExpiringFileContracts
+		if len(want) < 2 || len(want) != len(bs.ExpiringFileContracts) {
+			continue
+		}
+		set := map[types.FileContractID]bool{}
+		same := true
+		for i, e := range want {
+			set[e.ID] = true
+			if bs.ExpiringFileContracts[i].ID != e.ID {
+				same = false
+			}
+		}
+		if same {
+			continue
+		}
+		all := true
+		for _, e := range bs.ExpiringFileContracts {
+			all = all && set[e.ID]
+		}
+		if all {
+			return true
+		}
+	}
+	return false
 }
 
 func (n *RNode) projectLed(nm *mat.Names, maxH int) LedProj {
@@ -428,7 +480,10 @@ func (n *RNode) Audit(t *mat.Tree, nm *mat.Names, maxH int, p Projection) (out [
 	if tip.L == nil {
 		return
 	}
-	if !p.StateOK {
+	if !p.StateOK && p.OrderDiverged {
+		add("audit:c02:expiry-order", "tip state of block %d differs from a linear node's: a block on the best chain was applied with its expiring contracts in a history-dependent order, so missed-proof outputs got other leaf indices", p.Mem)
+		return
+	} else if !p.StateOK {
 		add("audit:c01:tipstate", "TipState() of block %d is not the state obtained by replaying the best chain from genesis", p.Mem)
 	}
 	// element buckets vs the linear ledger at min(tip height, require height)
